@@ -105,8 +105,8 @@ type fakeFetchIndex struct {
 	reader  *disk.DocsReader
 }
 
-func (f *fakeFetchIndex) GetBlocksOffsets(n uint32) uint64  { return f.offsets[n] }
-func (f *fakeFetchIndex) GetDocPos([]seq.ID) []seq.DocPos   { return f.pos }
+func (f *fakeFetchIndex) GetBlocksOffsets(n uint32) uint64 { return f.offsets[n] }
+func (f *fakeFetchIndex) GetDocPos([]seq.ID) []seq.DocPos  { return f.pos }
 func (f *fakeFetchIndex) ReadDocs(bo uint64, offs []uint64) ([][]byte, error) {
 	return f.reader.ReadDocs(bo, offs)
 }
